@@ -72,6 +72,7 @@ class CompiledFunction:
     source_map: Dict[int, Tuple[int, int]] = field(
         default_factory=dict
     )  # bytecode_pos -> (line, column)
+    is_arrow: bool = False  # arrow functions take `this` from the enclosing scope
 
 
 @dataclass
@@ -1175,6 +1176,7 @@ class Compiler:
             num_locals=len(self.locals),
             free_vars=self._free_vars[:],
             cell_vars=self._cell_vars[:],
+            is_arrow=True,
         )
 
         # Pop outer scope if we pushed it
